@@ -26,7 +26,7 @@ def isUsed : GcState → Bool
 
 /-- total number of references in the heap: with the number of roots, the fuel that always suffices -/
 def totalRefs (fixed : Bool) (h : Heap) : Nat :=
-  (h.cells.toList.map fun c => (crefs fixed c).length).sum
+  ((List.range h.gc.size).map fun x => (children fixed h x).length).sum
 
 def markFuel (fixed : Bool) (h : Heap) (roots : List Nat) : Nat := roots.length + totalRefs fixed h + 1
 
